@@ -3,6 +3,7 @@ from __future__ import annotations
 
 import io
 import itertools
+import re
 import tokenize as pt
 
 from harness import impl
@@ -69,7 +70,7 @@ def number_spellings():
     out = set(digs)
     for h in ["0x1f", "0XAB_cd", "0b101", "0B1_0", "0o17", "0O7_7"]:
         out.add(h)
-    for d in ["1", "12", "1_0"]:
+    for d in ["1", "12", "1_0", "0", "00", "01", "007", "09", "0_1", "0_0"]:
         for f in ["", ".", ".5", ".5_0"]:
             for e in ["", "e5", "E-3", "e+1_0"]:
                 for j in ["", "j", "J"]:
@@ -108,7 +109,8 @@ def build_inputs(tier):
         cases.append(("oprun", f"a {s} b\n"))
         cases.append(("oprun", f"a{s}b\n"))
     indents = ["if a:\n    b\n", "if a:\n\tb\n", "if a:\n  b\n  if c:\n\td\n", "if a:\n        b\n\tc\n", "if a:\n \tb\n", "if a:\n    b\n\x0c    c\n", "\x0cif a:\n    b\n", "if a:\n  b\n\n  c\n # x\nd\n", "if a:\n    b\n  # dedented comment\n    c\n", "if a: # c\n    b # d\n", "x = (1,\n# c\n\n   2)\n", "x = 1 \\\n    + 2\n", "if a:\n    b = [\n1,\n   2]\n    c\n", "def f():\n    if x:\n        y\n    z\nw\n", "class A:\n  def f(s):\n      pass\n  x = 1\n", "\n\n  \nx\n", "x = 1  # c\n# d\n", "if a:\n    pass\n  \n", "if a:\n    b\n\t\n"]
-    units = [" ", "  ", "    ", "\t", " \t", "  \t", "   \t", "\t ", "        ", "         ", "\t\t", "       \t", "\t    ", "          "]
+    units = [" ", "  ", "    ", "\t", " \t", "  \t", "   \t", "\t ", "        ", "         ", "\t\t", "       \t", "\t    ", "          ",
+             " \x0c", "\x0c ", "    \x0c", "  \x0c    ", "\t\x0c", "\x0c\t", "    \x0c    "]
     for i1 in units:
         for i2 in units:
             indents.append(f"if a:\n{i1}if b:\n{i2}c\n{i1}d\ne\n")
@@ -138,6 +140,8 @@ def classify(src, o):
     g, w = o.get("got"), o.get("want")
     if w and w[0] == "OP" and w[1] == "<>":
         return "KF-C09-flufl-noteq"
+    if w and g and w[0] == "NUMBER" and g[0] == "NUMBER" and re.fullmatch(r"0(?:_?[0-9])*", w[1]) and set(w[1]) - set("0_") and re.fullmatch(r"0(?:_?0)*", g[1]) and w[1].startswith(g[1]):
+        return "KF-C09-leading-zero-decimal"
     return None
 
 
@@ -162,6 +166,6 @@ def run(rep, tier, pool, variants=("shipped",)):
             continue
         fid = classify(src, o)
         if fid:
-            rep.known(fid, f"CPython's tokenizer still emits the legacy '<>' operator as one token: {short(src, 30)}")
+            rep.known(fid, f"CPython has {o.get('want')}, here {o.get('got')}: {short(src, 30)}")
             continue
         rep.violation(f"C09 {o.get('kind')}: got {short(o.get('got'), 60)} want {short(o.get('want'), 60)} on {short(src, 60)}", {"property": "C09", "input": src, "observed": o, "oracle": "tokenize.generate_tokens (CPython 3.12.1)"})
